@@ -320,6 +320,12 @@ class Slicer:
             t = blk["t"]
             args = tuple(self.operand(a, db, len(blk["s"]), depth) for a in t["args"])
             callee = t.get("res") or t.get("decl") or "<indirect>"
+            if callee.endswith("_chunk") and "[T]" in callee:
+                # `first_chunk::<N>()`: the const argument is not part of the resolved path; it is in the type of the result
+                import re as _re
+                m = _re.search(r"\[[^\[\];]+; (\d+)\]", self.body.local_ty(t["dest"]["l"]) or "")
+                if m:
+                    callee = "%s::<%s>" % (callee, m.group(1))
             term = ("call", callee, args, db)
             pr = t["dest"]["pr"]
             if pr:
@@ -345,6 +351,9 @@ class Slicer:
         if k == "binop":
             return ("binop", r["op"], self.operand(r["a"], blk, idx, depth), self.operand(r["b"], blk, idx, depth))
         if k == "unop":
+            if r["op"] == "PtrMetadata":
+                # the length a slice pattern / `first_chunk` tests: one normal form with `<[T]>::len(x)`
+                return ("call", "core::slice::<impl [T]>::len", (self.operand(r["o"], blk, idx, depth),))
             return ("unop", r["op"], self.operand(r["o"], blk, idx, depth))
         if k == "cast":
             return ("cast", r["ck"], self.operand(r["o"], blk, idx, depth), r["ty"], r.get("from"))
@@ -419,6 +428,11 @@ def _phi(ts):
 
 
 def field(t, name, idx):
+    # payload of a variant of a merged value: the payloads of the alternatives that can be that variant
+    if t[0] == "downcast" and strip(t[1])[0] == "phi":
+        alts = [a for a in strip(t[1])[1] if not (strip(a)[0] == "agg" and strip(a)[3] not in (None, t[2]))]
+        if alts and len(alts) < len(strip(t[1])[1]) or (alts and all(strip(a)[0] in ("call", "agg") for a in alts)):
+            return _phi(tuple(field(("downcast", a, t[2]), name, idx) for a in alts))
     # payload of `s.get(k)` / `s.first()` on a slice or Vec: the element `s[k]` / `s[0]` (by reference)
     if t[0] == "downcast" and t[2] == "Some" and idx == 0:
         c = strip(t[1])
@@ -426,8 +440,14 @@ def field(t, name, idx):
             last = c[1].rsplit("::", 1)[-1]
             if last == "get" and len(c[2]) == 2 and strip(c[2][1])[0] != "agg":
                 return ("ref", "shared", ("index", deref(c[2][0]) if strip(c[2][0])[0] == "ref" else c[2][0], c[2][1]))
+            # `s.get(a..b)` (a range): the sub-slice `&s[a..b]`
+            if last == "get" and len(c[2]) == 2 and strip(c[2][1])[0] == "agg" and "Range" in (strip(c[2][1])[2] or ""):
+                return ("call", "core::slice::index::<impl std::ops::Index<I> for [T]>::index", (c[2][0], c[2][1]))
             if last == "first" and len(c[2]) == 1:
                 return ("ref", "shared", ("index", deref(c[2][0]) if strip(c[2][0])[0] == "ref" else c[2][0], ("const", 0, None, "usize")))
+            # `s.first_chunk::<N>()`: the first N elements of `s` themselves (indexing the payload indexes `s`)
+            if "::first_chunk::<" in c[1] and len(c[2]) == 1:
+                return c[2][0]
     if t[0] == "agg" and t[1] in ("tuple", "adt", "closure", "array"):
         ops = t[4]
         if isinstance(idx, int) and idx < len(ops):
@@ -769,6 +789,51 @@ def decision_inputs(body, slicer, p, depth=0):
     return out
 
 
+def _variant_alternative_conds(body, slicer, p, label, depth=0):
+    t = body.blocks[p]["t"]
+    if t["k"] != "switch" or depth > 3:
+        return []
+    d = t["discr"].get("m") or t["discr"].get("c")
+    if d is None or d["pr"]:
+        return []
+    ds = slicer.defs().get(d["l"], [])
+    if len(ds) != 1 or ds[0][1] < 0:
+        return []
+    st = body.blocks[ds[0][0]]["s"][ds[0][1]]
+    r = st.get("r") or {}
+    if r.get("k") != "discr" or r["p"]["pr"]:
+        return []
+    l = r["p"]["l"]
+    guard = 0
+    while guard < 6:
+        guard += 1
+        dl = slicer.defs().get(l, [])
+        if len(dl) == 1 and dl[0][1] >= 0:
+            st2 = body.blocks[dl[0][0]]["s"][dl[0][1]]
+            r2 = st2.get("r") or {}
+            if st2["k"] == "assign" and not st2["p"]["pr"] and r2.get("k") == "use":
+                q = r2["o"].get("m") or r2["o"].get("c")
+                if q is not None and not q["pr"]:
+                    l = q["l"]
+                    continue
+        break
+    dl = [x for x in slicer.defs().get(l, []) if x[2]]
+    if len(dl) < 2:
+        return []
+    live = []
+    for (db, dj, _full) in dl:
+        if dj >= 0:
+            r2 = body.blocks[db]["s"][dj].get("r") or {}
+            if r2.get("k") == "agg" and r2.get("variant") is not None:
+                if r2.get("variant") == label:
+                    live.append(db)
+                continue
+        return []            # an alternative of unknown variant: nothing can be said
+    if len(live) != 1:
+        return []
+    return dom_conds(body, slicer, live[0])
+
+
 def dom_conds(body, slicer, b):
     """Conditions that hold on *every* path reaching block b (see _dom_conds_raw), with one refinement: when a branch tests a boolean
     local that was assigned on several paths (`let ok = a && b; if ok`, `let hit = x || y; if !hit`) and exactly one of its
@@ -778,6 +843,13 @@ def dom_conds(body, slicer, b):
     out = []
     for (atom, label, p) in raw:
         out.append((atom, label, p))
+        if isinstance(label, str):
+            # `match merged { Some(v) => .. }` where `merged` was assigned `Some(..)` at exactly one place (the others assign other
+            # variants): what held where that `Some` was built holds here (a helper `fn f() -> Option<T>` inlined at its call)
+            for c in _variant_alternative_conds(body, slicer, p, label):
+                if c not in out:
+                    out.append(c)
+            continue
         if not isinstance(label, bool):
             continue
         t = body.blocks[p]["t"]
